@@ -316,7 +316,9 @@ def _dfs_iter_tree(
       yield from _dfs_iter_tree(v, parent_key_path.at(Index(i)))
   elif parent_key_path:
     yield Key(parent_key_path)
-  elif data:
+  elif not isinstance(data, (Mapping, list, tuple, NullMap)):
+    # A root that is itself a leaf, falsy or not (not truth-tested: ndarray).
+    # An empty container root has no leaf.
     yield Key().SELF
 
 
